@@ -250,7 +250,7 @@ ENVELOPE = [
     {"xpoint_poloidal_spacing_length": 5.0}, {"target_all_poloidal_spacing_length": 1e-4},
     {"finecontour_Nfine": 3}, {"finecontour_maxits": 1}, {"refine_width": 10.0},
     {"xpoint_offset": 0.9}, {"psi_spacing_separatrix_multiplier": 1e-3},
-    {"follow_perpendicular_rtol": 1.0, "follow_perpendicular_atol": 1.0},
+    {"follow_perpendicular_rtol": 1e-3, "follow_perpendicular_atol": 1e-3},
     {"refine_atol": 1e-30}, {"y_boundary_guards": 5},
 ]
 
@@ -599,6 +599,9 @@ def _inconsistent(case, options, eq, BoutMesh):
 
 def classify(case, res, problems, counters):
     kind = case["kind"]
+    if res["outcome"] == "raised" and res["exc"] == "Runaway":
+        counters["undecided_runaway"] = 1
+        return None
     if res["outcome"] == "hung":
         return {"class": "HUNG", "detail": f"generation neither returned nor raised "
                                            f"({res['exc']}) under fault kind {kind}"}
